@@ -26,4 +26,4 @@ For each change i in 1..3 create the directory {wt}/mutants/{pid}-m<i>/ containi
   - patch.diff  : `git diff` output of ONLY that change relative to the clean worktree (must apply with `git apply` on a clean checkout),
   - demo_test.go (a Go test in package diam_test or the appropriate package, to be copied into the right package directory; say which in meta.json) or demo/main.go (a small program): a demonstration that FAILS with the change applied and PASSES without it. Keep it self-contained, deterministic, fast (<10 s), and not dependent on SCTP or the network (use net.Pipe or in-memory io.Reader/Writers if a connection is needed),
   - meta.json : {{"property": "{pid}", "summary": "...what was changed...", "needs": "...what is required for the violation to manifest...", "demo": "how to run the demonstration (exact commands, where to copy the file)", "verified": "what you ran and observed with and without the change"}}.
-After producing each patch, `git checkout -- .` (keep the untracked mutants/ directory) so the worktree is clean again before the next one; at the end the worktree must be clean except for mutants/. Actually verify all of the points above by running the commands; do not guess. Finish with a short report listing the three mutants and what each needs to manifest.""")
+After producing each patch, `git checkout -- .` (keep the untracked mutants/ directory) so the worktree is clean again before the next one; at the end the worktree must be clean except for mutants/. Do NOT use `git stash` (the stash is shared between worktrees of this repository); use `git apply -R` or `git checkout -- .` to undo a change. Actually verify all of the points above by running the commands; do not guess. Finish with a short report listing the three mutants and what each needs to manifest.""")
